@@ -168,7 +168,7 @@ contract(F, 'OscArgsMatcher.__call__', props=('C18',),
          params={'self': 'self', 'msg': msg_kind, 'time': 'any', 'addr': 'obj', 'recv_port': 'any'},
          requires=lambda c: z3.And(NM >= 1, NT >= 0),
          ensures=[('fires-iff-enough-arguments-and-every-template-item-accepts', args_post)],
-         loops={0: Loop(inv=tpl_inv, kinds={'i': 'int', 'item': 'any'})},
+         loops={0: Loop(early_exit=True, inv=tpl_inv, kinds={'i': 'int', 'item': 'any'})},
          modifies=[], fields={'OscArgsMatcher': {'arg_template': tpl_kind, 'func': 'obj'}},
          hooks={'builtin_first': am_builtin, 'call': am_call, 'compare': any_eq}, policies={FN + '::value': value_pol},
          class_modules={'OscArgsMatcher': F}, native=False,
@@ -414,3 +414,371 @@ contract(F, 'AbstractWrappingDispatcher.add', props=('C18',), params={'self': 's
          hooks={'getattr': reg_getattr, 'getitem': reg_getitem, 'setitem': reg_setitem},
          policies=REG_POL, class_modules={'AbstractWrappingDispatcher': F}, native=False,
          note='one key per proxy (what both OSC dispatchers return); the registries are dictionaries: ghost events')
+
+
+# ---- remove / update_func_for_func_proxy -----------------------------------------------------------------------
+LIST_NONEMPTY_AFTER = z3.Bool('key_list_nonempty_after_the_removal')
+OTHER_KEYS = z3.Bool('other_keys_are_active')
+IDX_OLD = z3.Int('position_of_the_old_wrapped_function')
+
+
+def reg2_getattr(eng, obj, name, st, node):
+    if obj.k == 'ref' and obj.oid == 'self' and name == 'active':
+        deleted = [e for e in st.trace if e[0] == 'delete' and e[1] == 'self.active']
+        return [(st, V('ref', cls='Registry', oid='self.active', extra={
+            'truth': OTHER_KEYS if deleted else z3.BoolVal(True)}))]
+    if obj.k == 'ref' and obj.cls == 'KeyList' and name in ('append', 'remove', 'index'):
+        def lst(eng, args, kwargs, st, node, _n=name):
+            st.trace.append(('list-' + _n, args[0]))
+            return [(st, vint(IDX_OLD) if _n == 'index' else NONE)]
+        return [(st, V('func', py=('spec', lst)))]
+    return reg_getattr(eng, obj, name, st, node)
+
+
+def reg2_getitem(eng, obj, idx, st, node):
+    if obj.k == 'ref' and obj.oid == 'self.active':
+        removed = [e for e in st.trace if e[0] == 'list-remove']
+        return [(st, V('ref', cls='KeyList', oid='active-list', extra={
+            'key': idx, 'truth': LIST_NONEMPTY_AFTER if removed else z3.BoolVal(True)}))]
+    if obj.k == 'obj' and obj.oid == 'self.wrapped_funcs':
+        stored = [e for e in st.trace if e[0] == 'store' and e[1] == 'self.wrapped_funcs']
+        return [(st, stored[-1][3] if stored else V('obj', oid='the-old-wrapped-func'))]
+    return None
+
+
+def reg2_setitem(eng, obj, idx, v, st, node):
+    if obj.k == 'ref' and obj.cls == 'KeyList':
+        st.trace.append(('list-store', obj.extra['key'], idx, v))
+        return [('next', st)]
+    if obj.k == 'ref' and obj.oid == 'self.active':
+        st.trace.append(('store', obj.oid, idx, v))
+        return [('next', st)]
+    return reg_setitem(eng, obj, idx, v, st, node)
+
+
+def reg2_delitem(eng, obj, idx, st, node):
+    if obj.k in ('obj', 'ref') and obj.oid in ('self.active', 'self.wrapped_funcs'):
+        st.trace.append(('delete', obj.oid, idx))
+        return [('next', st)]
+    return None
+
+
+def is_obj(v, oid):
+    return v is not None and v.k == 'obj' and v.oid == oid
+
+
+def remove_post(c):
+    t = c.trace
+    proxy = c._params['func_proxy']
+    notif = [e for e in t if e[0] == 'notif-unregister']
+    rem = [e for e in t if e[0] == 'list-remove']
+    dels_a = [e for e in t if e[0] == 'delete' and e[1] == 'self.active']
+    dels_w = [e for e in t if e[0] == 'delete' and e[1] == 'self.wrapped_funcs']
+    unreg = [e for e in t if e[0] == 'unregister']
+    ok = (len(notif) == 1 and len(notif[0][1]) == 3 and notif[0][1][0] is proxy and notif[0][1][2].k == 'ref'
+          and notif[0][1][2].oid == 'self'
+          and len(rem) == 1 and is_obj(rem[0][1], 'the-old-wrapped-func')        # THAT proxy's wrapped function leaves
+          and len(dels_w) == 1 and dels_w[0][2] is proxy                          # the proxy's entry is deleted
+          and len(dels_a) <= 1 and all(is_obj(e[2], 'the-key') for e in dels_a)
+          and len(unreg) <= 1
+          and not [e for e in t if e[0] in ('list-append', 'list-store', 'store', 'register')])
+    if not ok:
+        return z3.BoolVal(False)
+    return z3.And(z3.BoolVal(len(dels_a) == 1) == z3.Not(LIST_NONEMPTY_AFTER),   # key gone iff its list became empty
+                  z3.BoolVal(len(unreg) == 1) == z3.And(z3.Not(LIST_NONEMPTY_AFTER), z3.Not(OTHER_KEYS)))
+
+
+REG2_HOOKS = {'getattr': reg2_getattr, 'getitem': reg2_getitem, 'setitem': reg2_setitem, 'delitem': reg2_delitem}
+REG2_FIELDS = {'AbstractWrappingDispatcher': {'registered': 'bool', 'wrapped_funcs': 'obj'}, 'Registry': {}, 'KeyList': {}}
+REG2_CM = {'AbstractWrappingDispatcher': F, 'Registry': F, 'KeyList': F}
+
+contract(F, 'AbstractWrappingDispatcher.remove', props=('C18',), params={'self': 'self', 'func_proxy': 'obj'},
+         ensures=[('wrapped-function-leaves-its-key;key-deleted-iff-empty;unregisters-iff-nothing-active', remove_post)],
+         modifies=[], fields=REG2_FIELDS, hooks=REG2_HOOKS, policies=REG_POL, class_modules=REG2_CM, native=False,
+         note='a proxy that was added (its key is active, its wrapped function in the key\'s list); one key per proxy')
+
+
+def update_post(c):
+    t = c.trace
+    proxy = c._params['func_proxy']
+    wraps = [e for e in t if e[0] == 'wrap']
+    stores = [e for e in t if e[0] == 'store']
+    idx = [e for e in t if e[0] == 'list-index']
+    ls = [e for e in t if e[0] == 'list-store']
+    ok = (len(wraps) == 1 and wraps[0][1][0] is proxy
+          and len(stores) == 1 and stores[0][1] == 'self.wrapped_funcs' and stores[0][2] is proxy
+          and is_obj(stores[0][3], 'the-wrapped-func')                            # the NEW wrapped function is remembered
+          and len(idx) == 1 and is_obj(idx[0][1], 'the-old-wrapped-func')         # the OLD one is looked up ...
+          and len(ls) == 1 and is_obj(ls[0][1], 'the-key') and ls[0][2].k == 'int'
+          and is_obj(ls[0][3], 'the-wrapped-func')                                # ... and replaced
+          and not [e for e in t if e[0] in ('list-append', 'list-remove', 'delete', 'register', 'unregister')])
+    if not ok:
+        return z3.BoolVal(False)
+    return ls[0][2].z == IDX_OLD                                                  # IN PLACE: same position in the firing order
+
+
+contract(F, 'AbstractWrappingDispatcher.update_func_for_func_proxy', props=('C18',),
+         params={'self': 'self', 'func_proxy': 'obj'},
+         ensures=[('new-wrapped-function-takes-the-place-of-the-old-one-in-the-firing-order', update_post)],
+         modifies=[], fields=REG2_FIELDS, hooks=REG2_HOOKS, policies=REG_POL, class_modules=REG2_CM, native=False,
+         note='a proxy that was added; one key per proxy')
+
+
+# ---- AbstractResponderFunc: one_shot, func setter, enable / disable / free -------------------------------------
+def rf_getattr(eng, obj, name, st, node):
+    if obj.k == 'module' and name in ('NotificationCenter', 'CmdPeriod'):
+        return [(st, V('obj', oid=name))]
+    if obj.k == 'obj' and obj.oid in ('NotificationCenter', 'CmdPeriod', 'self.dispatcher', 'the-proxy-set') \
+            and name in ('notify', 'add', 'remove'):
+        def call(eng, args, kwargs, st, node, _o=obj.oid, _n=name):
+            st.trace.append((_o + '.' + _n, tuple(args)))
+            return [(st, NONE)]
+        return [(st, V('func', py=('spec', call)))]
+    if obj.k == 'class' and name == '_all_func_proxies':
+        return [(st, V('obj', oid='the-proxy-set'))]
+    if obj.k == 'ref' and obj.oid == 'self' and name.endswith('__on_cmd_period'):
+        return [(st, V('obj', oid='self.__on_cmd_period'))]
+    return None
+
+
+IN_SET = z3.Bool('self_in_the_proxy_set')
+
+
+def rf_contains(eng, container, item, st, node):
+    if container.k == 'obj' and container.oid == 'the-proxy-set':
+        return IN_SET
+    return None
+
+
+def rf_builtin(eng, name, args, kwargs, st, node):
+    if name == 'type' and len(args) == 1 and args[0].k == 'ref':
+        return [(st, V('class', py=args[0].cls))]
+    return None
+
+
+def rf_setattr(eng, obj, name, v, st, node):
+    # self.func = <closure>: what the installed function DOES is the point - it is run here, once, on four
+    # arbitrary values, in a copy of the state; its events become one ghost event
+    if obj.k == 'ref' and obj.oid == 'self' and name == 'func':
+        if v.k == 'func' and v.py[0] == 'closure':
+            probe = st.fork()
+            probe.objs.setdefault('self', {})['_func'] = v        # when it runs, it IS the responder's function
+            n0 = len(probe.trace)
+            args = [V('obj', oid='call-arg%d' % i) for i in range(4)]
+            runs = []
+            for st1, r in eng.call_closure(v, args, {}, probe, node):
+                runs.append((st1.trace[n0:], isinstance(r, Raised)))
+            st.trace.append(('installed', v, runs))
+        else:
+            st.trace.append(('installed', v, None))
+        return [('next', st)]
+    return None
+
+
+def rf_free_pol(eng, selfv, args, kwargs, st, node):
+    st.trace.append(('free', selfv))
+    return [(st, NONE)]
+
+
+def rf_value_pol(eng, selfv, args, kwargs, st, node):
+    st.trace.append(('fire', tuple(args)))
+    return [(st, NONE)]
+
+
+def one_shot_post(c):
+    inst = [e for e in c.trace if e[0] == 'installed']
+    if len(inst) != 1 or inst[0][2] is None or len(inst[0][2]) != 1:
+        return z3.BoolVal(False)
+    events, raised = inst[0][2][0]
+    events = [e for e in events if e[0] in ('free', 'fire')]
+    if raised or [e[0] for e in events] != ['free', 'fire']:                        # FIRST freed, THEN the function runs
+        return z3.BoolVal(False)
+    a = events[1][1]
+    ok = (events[0][1].k == 'ref' and events[0][1].oid == 'self'
+          and len(a) == 5 and is_obj(a[0], 'self._func')                                      # the function that was there before
+          and all(is_obj(a[1 + i], 'call-arg%d' % i) for i in range(4)))            # with the values it is called with
+    return z3.BoolVal(bool(ok))
+
+
+RF_FIELDS = {'AbstractResponderFunc': {'_func': 'obj', '_permanent': 'bool', 'enabled': 'bool', 'dispatcher': 'obj'}}
+RF_HOOKS = {'getattr': rf_getattr, 'contains': rf_contains, 'builtin_first': rf_builtin}
+RF_CM = {'AbstractResponderFunc': F}
+
+contract(F, 'AbstractResponderFunc.one_shot', props=('C18',), params={'self': 'self'},
+         ensures=[('installed-function-frees-the-responder-BEFORE-calling-the-original-with-the-same-values', one_shot_post)],
+         modifies=[], fields=RF_FIELDS, hooks=dict(RF_HOOKS, setattr=rf_setattr),
+         policies={'AbstractResponderFunc.free': rf_free_pol, FN + '::value': rf_value_pol},
+         class_modules=RF_CM, native=False,
+         note='the installed closure is executed symbolically once on four arbitrary values; installing goes through '
+              'the func setter (contract below)')
+
+
+def setter_post(c):
+    n = [e for e in c.trace if e[0] == 'NotificationCenter.notify']
+    ok = (len(n) == 1 and len(n[0][1]) == 2 and n[0][1][0].k == 'ref' and n[0][1][0].oid == 'self'
+          and n[0][1][1].k == 'str' and n[0][1][1].py == 'function'
+          and c.post.self.v('_func') is c._params['value'])
+    return z3.BoolVal(bool(ok))
+
+
+contract(F, 'AbstractResponderFunc.func@setter', props=('C18',), params={'self': 'self', 'value': 'obj'},
+         ensures=[('function-stored-and-dependants-notified-once', setter_post)],
+         modifies=[('self', '_func')], fields=RF_FIELDS, hooks=RF_HOOKS, class_modules=RF_CM, native=False)
+
+
+def count(c, name):
+    return len([e for e in c.trace if e[0] == name])
+
+
+def enable_post(c):
+    was = c.pre.self.enabled
+    perm = c.pre.self._permanent
+    adds, cp_add, sets = count(c, 'self.dispatcher.add'), count(c, 'CmdPeriod.add'), count(c, 'the-proxy-set.add')
+    others = count(c, 'self.dispatcher.remove') + count(c, 'CmdPeriod.remove') + count(c, 'the-proxy-set.remove')
+    return z3.And(z3.BoolVal(others == 0), z3.BoolVal(adds <= 1 and cp_add <= 1 and sets <= 1),
+                  z3.BoolVal(adds == 1) == z3.Not(was),                     # registered with the dispatcher iff it was not
+                  z3.BoolVal(sets == 1) == z3.Not(was),
+                  z3.BoolVal(cp_add == 1) == z3.And(z3.Not(was), z3.Not(perm)),
+                  c.post.self.enabled)
+
+
+def disable_post(c):
+    was = c.pre.self.enabled
+    perm = c.pre.self._permanent
+    rem, cp_rem = count(c, 'self.dispatcher.remove'), count(c, 'CmdPeriod.remove')
+    others = count(c, 'self.dispatcher.add') + count(c, 'CmdPeriod.add') + count(c, 'the-proxy-set.add')
+    return z3.And(z3.BoolVal(others == 0), z3.BoolVal(rem <= 1 and cp_rem <= 1),
+                  z3.BoolVal(rem == 1) == was,                              # leaves the dispatcher iff it was enabled
+                  z3.BoolVal(cp_rem == 1) == z3.And(was, z3.Not(perm)),
+                  z3.Not(c.post.self.enabled))
+
+
+def rf_disable_pol(eng, selfv, args, kwargs, st, node):
+    st.trace.append(('disable', selfv))
+    return [(st, NONE)]
+
+
+def free_post(c):
+    dis, rem = count(c, 'disable'), count(c, 'the-proxy-set.remove')
+    return z3.And(z3.BoolVal(dis <= 1 and rem <= 1),
+                  z3.BoolVal(rem == 1) == IN_SET,                           # leaves the set of responders iff it is in it
+                  z3.BoolVal(dis == 1) == c.pre.self.enabled)               # disabled iff it was enabled
+
+
+contract(F, 'AbstractResponderFunc.enable', props=('C18',), params={'self': 'self'},
+         ensures=[('enters-dispatcher-and-responder-set-once-iff-it-was-disabled', enable_post)],
+         modifies=[('self', 'enabled')], fields=RF_FIELDS, hooks=RF_HOOKS, class_modules=RF_CM, native=False)
+contract(F, 'AbstractResponderFunc.disable', props=('C18',), params={'self': 'self'},
+         ensures=[('leaves-the-dispatcher-once-iff-it-was-enabled', disable_post)],
+         modifies=[('self', 'enabled')], fields=RF_FIELDS, hooks=RF_HOOKS, class_modules=RF_CM, native=False)
+contract(F, 'AbstractResponderFunc.free', props=('C18',), params={'self': 'self'},
+         ensures=[('leaves-the-responder-set-iff-in-it;disabled-iff-enabled', free_post)],
+         modifies=[], fields=RF_FIELDS, hooks=RF_HOOKS, policies={'AbstractResponderFunc.disable': rf_disable_pol},
+         class_modules=RF_CM, native=False)
+
+
+# ---- the pattern dispatcher: OscMessagePatternDispatcher.__call__ -----------------------------------------------
+# For EVERY registered address (pass i of the outer loop): the incoming pattern is matched against it in THIS call
+# (one call of the matcher with (msg[0], address i)), and the functions registered under it fire - each exactly
+# once, in order, with the four values unchanged - iff the matcher said yes.  Nothing is remembered between calls.
+NKEYS = z3.Int('active.len')
+KEY_AT = z3.Function('active.key', z3.IntSort(), VV.Any)
+NFUNCS_AT = z3.Function('active.nfuncs', z3.IntSort(), z3.IntSort())
+FUNC_AT = z3.Function('active.func', z3.IntSort(), z3.IntSort(), VV.Any)
+
+
+def pd_getattr(eng, obj, name, st, node):
+    if obj.k == 'obj' and obj.oid == 'self.active' and name == 'copy':
+        return [(st, V('func', py=('spec', lambda eng, a, kw, st, node: [(st, V('obj', oid='active-copy'))])))]
+    if obj.k == 'obj' and obj.oid == 'active-copy' and name == 'items':
+        def items(eng, a, kw, st, node):
+            def get(eng_, i, st_):
+                funcs = V('seq', extra={'len': NFUNCS_AT(i), 'facts': [NFUNCS_AT(i) >= 0], 'key_index': i,
+                                        'get': (lambda e2, j, s2, _i=i: V('any', FUNC_AT(_i, j)))})
+                st_.pc.append(NFUNCS_AT(i) >= 0)
+                return vtuple([V('any', KEY_AT(i)), funcs])
+            return [(st, V('seq', extra={'len': NKEYS, 'facts': [NKEYS >= 0], 'get': get}))]
+        return [(st, V('func', py=('spec', items)))]
+    return None
+
+
+def pd_getitem(eng, obj, idx, st, node):
+    if obj.k == 'obj' and obj.oid == 'msg' and idx.k == 'int':
+        return [(st, V('obj', oid='msg[0]'))]
+    return None
+
+
+def pd_match(eng, selfv, args, kwargs, st, node):
+    r = z3.Bool('matches!%d' % next(eng.counter))
+    st.trace.append(('match', tuple(args), r))
+    return [(st, vbool(r))]
+
+
+def pd_since(trace, ordinal):
+    idx = -1
+    for i, e in enumerate(trace):
+        if e[0] == 'loop-head' and e[1] == ordinal:
+            idx = i
+    return trace[idx + 1:] if idx >= 0 else None
+
+
+def pd_inner(c, L):
+    ev = pd_since(c.trace, 1)
+    if not ev:
+        return z3.BoolVal(True)
+    ev = [e for e in ev if e[0] in ('fire', 'match')]
+    if len(ev) != 1 or ev[0][0] != 'fire' or len(ev[0][1]) != 5 or ev[0][1][0].k != 'any':
+        return z3.BoolVal(False)
+    a = ev[0][1]
+    funcs = c.st.env.get('funcs')
+    if funcs is None or funcs.k != 'seq' or 'key_index' not in funcs.extra:
+        return z3.BoolVal(False)
+    ok = a[1] is c._params['msg'] and a[2] is c._params['time'] and a[3] is c._params['addr'] and a[4] is c._params['recv_port']
+    return z3.And(z3.BoolVal(bool(ok)), a[0].z == FUNC_AT(funcs.extra['key_index'], L.i - 1))
+
+
+def pd_outer(c, L):
+    ev = pd_since(c.trace, 0)
+    if not ev:
+        return z3.BoolVal(True)
+    ms = [e for e in ev if e[0] == 'match']
+    if len(ms) != 1 or len(ms[0][1]) != 2 or not is_obj(ms[0][1][0], 'msg[0]') or ms[0][1][1].k != 'any':
+        return z3.BoolVal(False)                                      # matched in THIS call, this pattern
+    i = L.i - 1
+    inner = [e for e in ev if e[0] == 'loop-head' and e[1] == 1]
+    fires = [e for e in ev if e[0] == 'fire']
+    cl = [ms[0][1][1].z == KEY_AT(i)]                                 # against address i
+    if inner:
+        n_inner = c.st.env.get('__i1')
+        if fires or n_inner is None or n_inner.k != 'int':
+            return z3.BoolVal(False)
+        cl += [ms[0][2], n_inner.z == NFUNCS_AT(i)]                   # matched: ALL its functions went through the inner loop
+    else:
+        cl += [z3.Not(ms[0][2]), z3.BoolVal(not fires)]               # not matched: nobody fires
+    return z3.And(*cl)
+
+
+def pd_post(c):
+    n = c.st.env.get('__i0')                       # passes of the outer loop when the call returns
+    if n is None or n.k != 'int':
+        return z3.BoolVal(False)
+    return n.z == NKEYS
+
+
+def funcs_kind(eng, name):
+    i = z3.Int(name + '#key')
+    return V('seq', extra={'len': NFUNCS_AT(i), 'facts': [NFUNCS_AT(i) >= 0], 'key_index': i,
+                           'get': (lambda e2, j, s2, _i=i: V('any', FUNC_AT(_i, j)))})
+
+
+contract(F, 'OscMessagePatternDispatcher.__call__', props=('C18',),
+         params={'self': 'self', 'msg': 'obj', 'time': 'any', 'addr': 'obj', 'recv_port': 'any'},
+         ensures=[('every-registered-address-is-tried', pd_post)],
+         loops={0: Loop(inv=pd_outer, kinds={'key': 'any', 'funcs': funcs_kind, 'func': 'any'}),
+                1: Loop(inv=pd_inner, kinds={'func': 'any'})},
+         modifies=[], fields={'OscMessagePatternDispatcher': {'active': 'obj'}},
+         hooks={'getattr': pd_getattr, 'getitem': pd_getitem},
+         policies={FN + '::value': d_value, 'sc3/base/_oscmatch.py::osc_rematch_pattern': pd_match},
+         class_modules={'OscMessagePatternDispatcher': F}, native=False,
+         note='the matcher itself (sc3/base/_oscmatch.py) is decided by the bounded driver against an independent '
+              'OSC 1.0 matcher; copies of the registry and of the lists are values here (see the exact dispatcher)')
